@@ -94,6 +94,39 @@ func refAllowed(o, own rorigin, trusted []string) bool {
 	return false
 }
 
+// diagnose names, for the signature, WHY a foreign value could have been accepted: it looks at the
+// value itself (where a configured wildcard domain suffix sits) so that different alphabet entries
+// exercising the same defect share one signature; otherwise the alphabet's class label is used.
+func diagnose(class, val string, trusted []string) string {
+	class = strings.TrimSuffix(class, "-upper")
+	u, err := url.Parse(strings.ToLower(val))
+	if err != nil {
+		return class
+	}
+	for _, t := range trusted {
+		i := strings.Index(t, "://*.")
+		if i == -1 {
+			continue
+		}
+		suf := "." + strings.ToLower(t[i+5:])
+		host := u.Hostname()
+		if strings.HasSuffix(host, suf) && !validLabels(strings.TrimSuffix(host, suf)) {
+			return "empty-label"
+		}
+		if strings.HasSuffix(strings.ToLower(val), suf) && !strings.HasSuffix(u.Host, suf) {
+			switch {
+			case u.Fragment != "":
+				return "trusted-suffix-in-fragment"
+			case u.RawQuery != "":
+				return "trusted-suffix-in-query"
+			default:
+				return "trusted-suffix-in-path"
+			}
+		}
+	}
+	return class
+}
+
 // ---------------------------------------------------------------------------
 // alphabets
 
@@ -314,7 +347,7 @@ func runB(r *core.Run, col *collector, samples *[]any) map[string]any {
 					judged = true
 					oKind = fmt.Sprintf("allowed=%v", oAllowed)
 					if reached && !oAllowed {
-						col.add(ord, fmt.Sprintf("B origin-check-bypass via=Origin class=%s wildcard-entry-configured=%v", strings.TrimSuffix(ov.Class, "-upper"), strings.Contains(tr.Name, "wildcard")),
+						col.add(ord, fmt.Sprintf("B origin-check-bypass via=Origin class=%s wildcard-entry-configured=%v", diagnose(ov.Class, oval, tr.Origins), strings.Contains(tr.Name, "wildcard")),
 							"unsafe request with a valid token reached the handler although its Origin is neither the same origin nor a trusted origin",
 							cs, map[string]any{"reached": true, "status": fctx.Response.StatusCode()}, "rejected: origin "+oval+" is not "+fmt.Sprint(own)+" nor trusted")
 					}
@@ -325,7 +358,7 @@ func runB(r *core.Run, col *collector, samples *[]any) map[string]any {
 					}
 					rKind = fmt.Sprintf("allowed=%v", rAllowed)
 					if reached && !rAllowed {
-						col.add(ord, fmt.Sprintf("B origin-check-bypass via=Referer class=%s wildcard-entry-configured=%v", strings.TrimSuffix(rv.Class, "-upper"), strings.Contains(tr.Name, "wildcard")),
+						col.add(ord, fmt.Sprintf("B origin-check-bypass via=Referer class=%s wildcard-entry-configured=%v", diagnose(rv.Class, rval, tr.Origins), strings.Contains(tr.Name, "wildcard")),
 							"https unsafe request without a usable Origin reached the handler although its Referer's origin is neither the same origin nor a trusted origin",
 							cs, map[string]any{"reached": true, "status": fctx.Response.StatusCode()}, "rejected: referer origin is not "+fmt.Sprint(own)+" nor trusted")
 					}
